@@ -2,10 +2,12 @@
 // solve(cancel at PTC evaluation k) / clear / clearQuery / setProblemDefinition / getPlannerData /
 // clearSolutionPaths, one forked child per case (DESIGN 3.3).  Serves C01, C03, C04.
 #include "sim/runner.h"
+#include "sim/sched.h"
 #include "engines/world.h"
 #include "engines/planners.h"
 
 #include <ompl/base/PlannerData.h>
+#include <ompl/base/goals/GoalLazySamples.h>
 #include <ompl/base/PlannerTerminationCondition.h>
 #include <ompl/base/objectives/PathLengthOptimizationObjective.h>
 #include <ompl/base/objectives/StateCostIntegralObjective.h>
@@ -49,17 +51,27 @@ namespace
         std::atomic<long> *validCalls = nullptr;
         long *validAtFire = nullptr;
         double cpuBudget = 1e9;
+        // scheduled (threaded) cases: end the case right here instead of throwing through a planner's worker thread
+        std::function<void(bool budget)> bail;
         ob::PlannerTerminationCondition make()
         {
             return ob::PlannerTerminationCondition([this] {
                 if (fired)
                 {
                     if (++after > 10000)
+                    {
+                        if (bail)
+                            bail(false);
                         throw StopSolve();
+                    }
                     return true;
                 }
                 if ((evals & 31) == 31 && world::cpuSeconds() > cpuBudget)
+                {
+                    if (bail)
+                        bail(true);
                     throw world::BudgetExhausted();
+                }
                 if (evals++ >= k)
                 {
                     fired = true;
@@ -546,8 +558,8 @@ public:
         std::string only = o.get("planner");
         for (auto &i : planners::geometric())
         {
-            if (i.threaded)
-                continue;  // run under the scheduler (concsim-B), never with free-running threads
+            if (i.threaded != (o.prop == "C19"))
+                continue;  // threaded planners run under the scheduler only (C19-B), never with free-running threads
             if (!only.empty() && i.name != only)
                 continue;
             if (o.prop == "C04" && !costAware(i.name))
@@ -625,6 +637,36 @@ public:
             obj["type"] = sp.optimizing ? (g.chance(0.8) ? "length" : "none") : (g.chance(0.2) ? "length" : "none");
         plan["objective"] = obj;
 
+        if (o.prop == "C19")
+        {
+            Json sch = Json::object();
+            sch["seed"] = (long)g.range(1, 1000000000);
+            sch["policy"] = (long)g.below(3);
+            sch["pct_depth"] = (long)g.range(1, 3);
+            sch["quantum"] = (long)g.range(1, 30);
+            sch["cost_us"] = (long)g.pick(std::vector<double>{2, 10, 50});
+            sch["jitter_us"] = g.chance(0.3) ? (long)g.range(1, 20) : 0L;
+            if (g.chance(0.2))
+            {
+                sch["starve_thread"] = (long)g.range(1, 4);
+                sch["starve_yields"] = (long)g.range(10, 2000);
+            }
+            if (g.chance(0.3))
+                sch["terminate_after_ms"] = g.pick(std::vector<double>{0.0, 0.5, 5, 50, 400});
+            plan["sched"] = sch;
+            if (planner == "pRRT" || planner == "pSBL")
+                plan["params"]["thread_count"] = fmt("%ld", g.range(2, 4));
+            if (planner == "CForest")
+                plan["params"]["num_threads"] = fmt("%ld", g.range(2, 4));
+            if (planner == "AnytimePathShortening")
+                plan["params"]["num_planners"] = fmt("%ld", g.range(2, 3));
+            // a lazily sampled goal (producer thread) for planners that sample goals
+            if (sp.recognizedGoal != (int)ob::GOAL_STATE && g.chance(0.3) && plan["queries"].at(0)["goal"].gets("type") != "region")
+            {
+                plan["queries"].at(0)["goal"]["type"] = "lazy";
+                plan["queries"].at(0)["goal"]["delay_ms"] = g.pick(std::vector<double>{0.0, 1, 12, 30, 150});
+            }
+        }
         Json ops = Json::array();
         if (o.prop == "C03" && planner == "LazyLBTRRT" && j >= 4)
         {
@@ -645,7 +687,13 @@ public:
             ops.push(op);
         };
         long budget = o.thorough() ? 6000 : 1500;
-        if (o.prop == "C01")
+        if (o.prop == "C19")
+        {
+            solve(g.chance(0.6) ? g.range(200, 1500) : g.range(0, 200));
+            if (g.chance(0.25))
+                solve(g.range(0, 600));
+        }
+        else if (o.prop == "C01")
         {
             if (g.chance(0.7))
                 solve(g.pick(std::vector<double>{300, 1000, (double)budget}));
@@ -752,7 +800,7 @@ public:
     }
     bool judgesCrashes(const sim::Options &o) const override
     {
-        return o.prop == "C03";  // "does not crash" is C03's clause; C01/C04 judge what solve() reports
+        return o.prop == "C03" || o.prop == "C19";  // "does not crash" is C03's clause (C19-B: its threaded planners); C01/C04 judge what solve() reports
     }
     void atChildExit(Json &e) override
     {
@@ -948,7 +996,9 @@ namespace
         if (sol.approximate_)
         {
             double scale = std::max(1.0, c.w->ss->getMaximumExtent());
-            if (std::fabs(sol.difference_ - d) > 1e-9 * scale)
+            // (a lazily sampled goal grows while the planner runs, so the distance to it is not stationary: the
+            // difference recorded with the solution cannot be recomputed afterwards)
+            if (q.goalType != "lazy" && std::fabs(sol.difference_ - d) > 1e-9 * scale)
             {
                 c.res.violate(P + ".approximate-difference-mismatch" + sfx(c),
                               when + fmt(": approximate solution reports difference %.9g, last state is %.9g from the goal "
@@ -964,7 +1014,7 @@ namespace
         }
         else
             c.outcomes.insert("exact");
-        if (P == "C01")
+        if (P == "C01" || P == "C19")
         {
             for (size_t i = 0; i < v.size(); i++)
                 if (!c.w->si->satisfiesBounds(v[i]))
@@ -1308,14 +1358,91 @@ sim::CaseResult PlanSim::run(const sim::Options &o, const Json &plan)
                 ob::PlannerSolution topBefore(nullptr);
                 bool had = q.pdef->getSolution(topBefore);
                 ob::PlannerStatus st;
+                const bool scheduled = plan.has("sched");
+                ob::PlannerTerminationCondition ptcObj = ptc.make();
+                int terminator = -1;
+                if (scheduled)
+                {
+                    const Json &sj = plan["sched"];
+                    sim::sched::Config cfg;
+                    cfg.seed = (uint64_t)sj.geti("seed", 1) + oi;
+                    cfg.policy = (int)sj.geti("policy", 0);
+                    cfg.pctDepth = (int)sj.geti("pct_depth", 2);
+                    cfg.pctHorizon = 20000;
+                    cfg.quantum = sj.geti("quantum", 8);
+                    cfg.costNs = sj.geti("cost_us", 10) * 1000;
+                    cfg.costJitterNs = sj.geti("jitter_us", 0) * 1000;
+                    cfg.starveThread = sj.has("starve_thread") ? (int)sj.geti("starve_thread") : -1;
+                    cfg.starveYields = sj.geti("starve_yields", 0);
+                    cfg.maxYields = o.thorough() ? 40000000 : 8000000;
+                    sim::sched::onDeadlock = [&res, &c, P, when](const std::string &what) {
+                        res.violate(P + ".deadlock" + sfx(c), when + ": " + what);
+                        sim::finishCaseNow(res);
+                    };
+                    sim::sched::onBudget = [&res]() {
+                        res.inconclusive = true;
+                        res.probes["step-budget-exhausted"]++;
+                        sim::finishCaseNow(res);
+                    };
+                    c.w->onValidityCall = [] { sim::sched::yield(); };
+                    ptc.bail = [&res, &c, &ptc, P, when, &validAtFire](bool budget) {
+                        if (!budget)
+                            res.violate(P + ".unbounded-return" + sfx(c), when + ": the termination condition was evaluated 10^4 more times after it became true");
+                        else if (ptc.fired && c.w->validCalls.load() - validAtFire > 1000000)
+                            res.violate(P + ".unbounded-return" + sfx(c), when + ": more than 10^6 validity checks after the termination condition became true");
+                        else
+                            res.inconclusive = true;
+                        res.probes["step-budget-exhausted"] += budget;
+                        sim::finishCaseNow(res);
+                    };
+                    c.w->onBudgetExhausted = [&ptc] { ptc.bail(true); };
+                    world::ledger().onBudgetExhausted = [&ptc] { ptc.bail(true); };
+                    sim::sched::start(cfg);
+                    if (q.lazyGoal)
+                        q.lazyGoal->startSampling();
+                    if (sj.has("terminate_after_ms"))
+                    {
+                        long long ns = (long long)(sj.getd("terminate_after_ms") * 1e6);
+                        terminator = sim::sched::spawn([ns, ptcObj] {
+                            struct timespec ts = {(time_t)(ns / 1000000000LL), (long)(ns % 1000000000LL)};
+                            nanosleep(&ts, nullptr);
+                            ptcObj.terminate();
+                        });
+                        res.faults["F2-terminate-from-another-thread"]++;
+                    }
+                }
                 c.w->validBudget = c.w->validCalls.load() + stepBudget;
                 world::ledger().cpuBudget = c.w->cpuBudget;
                 world::ledger().armed = true;
                 try
                 {
-                    st = planner->solve(ptc.make());
+                    st = planner->solve(ptcObj);
                     c.w->validBudget = -1;
                     world::ledger().armed = false;
+                    if (scheduled)
+                    {
+                        if (terminator >= 0)
+                        {
+                            ptcObj.terminate();  // let the terminator finish its sleep and go
+                            sim::sched::join(terminator);
+                        }
+                        if (q.lazyGoal)
+                            q.lazyGoal->stopSampling();
+                        // every thread the planner started must be gone now: stop() lets stragglers run; a thread that can
+                        // never finish is reported as a deadlock
+                        sim::sched::Stats sst = sim::sched::stop();
+                        c.w->onValidityCall = nullptr;
+                        c.w->onBudgetExhausted = nullptr;
+                        world::ledger().onBudgetExhausted = nullptr;
+                        res.simSeconds += sst.simSeconds;
+                        res.interleavings.push_back(sst.scheduleHash);
+                        res.faults["F4-scheduler-switches"] += sst.switches;
+                        if (sst.starved)
+                            res.faults["F4-bounded-starvation"] += sst.starved;
+                        res.probes["simulated-threads"] += sst.threads;
+                        res.probes["mutex-blocks"] += sst.mutexBlocks;
+                        c.h = sim::hashU64(c.h, sst.scheduleHash);
+                    }
                 }
                 catch (StopSolve &)
                 {
@@ -1339,6 +1466,14 @@ sim::CaseResult PlanSim::run(const sim::Options &o, const Json &plan)
                 {
                     c.w->validBudget = -1;
                     world::ledger().armed = false;
+                    if (scheduled)
+                    {
+                        // worker threads may still be alive: nothing more can be judged in this process
+                        res.probes["solve-refused-configuration(ompl::Exception)"]++;
+                        res.info["solve_exception"] = ex.what();
+                        res.inconclusive = true;
+                        sim::finishCaseNow(res);
+                    }
                     std::string msg = ex.what();
                     // documented refusals of a configuration: nothing was promised for this input, the case ends
                     // unjudged. Any other exception escaping solve() on a valid query is a violation.
@@ -1397,7 +1532,7 @@ sim::CaseResult PlanSim::run(const sim::Options &o, const Json &plan)
                 bool isSol = (bool)st;
                 auto stt = (ob::PlannerStatus::StatusType)st;
                 // status truth (C01: solution statuses; C03: what the pdef now holds)
-                if (P == "C01" || P == "C03")
+                if (P == "C01" || P == "C03" || P == "C19")
                 {
                     bool anyExact = false, anyApprox = false;
                     for (auto &s : after)
@@ -1422,7 +1557,7 @@ sim::CaseResult PlanSim::run(const sim::Options &o, const Json &plan)
                 }
                 if (!res.vclass.empty())
                     break;
-                if (P == "C01" || P == "C03")
+                if (P == "C01" || P == "C03" || P == "C19")
                     for (auto &s : added)
                     {
                         judgePath(c, q, s, when);
@@ -1564,12 +1699,16 @@ sim::CaseResult PlanSim::run(const sim::Options &o, const Json &plan)
         std::string space = plan["world"].gets("space");
         std::string gt = plan["queries"].at(0)["goal"].gets("type");
         res.sig = c.planner + "/" + space + "/" + gt + "/" + oc;
+        if (P == "C19")
+            res.sig += fmt("/p%ld", (long)plan["sched"].geti("policy")) + (plan["sched"].has("terminate_after_ms") ? "/ext-terminate" : "") + (plan["sched"].has("starve_thread") ? "/starve" : "");
         if (P == "C03")
             res.sig += "/" + kinds + (firedAfterSolution ? "/cancel-after-solution" : (firedSolves ? "/cancel-before-solution" : ""));
         if (P == "C04")
             res.sig += "/" + plan["objective"].gets("type") + fmt("/solves%ld", solves);
         if (P == "C01")
             res.nontrivial = c.judgedPaths > 0;
+        else if (P == "C19")
+            res.nontrivial = res.probes["simulated-threads"] > solves;  // the planner really ran extra threads
         else if (P == "C03")
             res.nontrivial = firedSolves > 0 && ops.size() >= 2;
         else
